@@ -92,6 +92,31 @@ def plan_callables(fn):
     return regular, tagged
 
 
+_API_INDEX = None
+
+
+def _api_index():
+    global _API_INDEX
+    if _API_INDEX is None:
+        _API_INDEX = {}
+        try:
+            from checks import l2
+            from kio.serial import entity_reader, entity_writer
+            for T in l2.all_entities():
+                for kind, api in (("writer", entity_writer), ("reader", entity_reader)):
+                    for nullable in (False, True):
+                        shapes = [lambda: api(T, nullable), lambda: api(T, nullable=nullable)] + ([lambda: api(T)] if not nullable else [])
+                        for call in shapes:
+                            try:
+                                f = call()
+                            except Exception:        # noqa: BLE001
+                                continue
+                            _API_INDEX.setdefault(id(f), (f, (kind, T, nullable)))
+        except Exception:        # noqa: BLE001
+            pass
+    return _API_INDEX
+
+
 def identify(fn):
     """(kind, T, nullable) of a closure handed out by the public entity_writer / entity_reader.
     The anchor is the public API, not the private names inside it: fn is recognised when
@@ -109,6 +134,11 @@ def identify(fn):
                             return kind, T, nullable
                     except Exception:        # noqa: BLE001
                         continue
+    # the closure does not hold its class in a cell (e.g. everything was precomputed at build time): look it up in a
+    # reverse index of what the public API hands out for every entity class, built once per process
+    hit = _api_index().get(id(fn))
+    if hit is not None and hit[0] is fn:
+        return hit[1]
     # fall back on the private names (an API that stopped caching hands out a new object each time)
     q = getattr(fn, "__qualname__", "")
     cells = _cells(fn)
